@@ -73,6 +73,63 @@ CHECKS.update({
                 design="6/C20", note=SEQ_NOTE),
 })
 
+BENCH_NOTE = ("Trusted: TLC/SANY, the Rust harness (scripted models, schedule controller on the pick/yield hooks), the "
+              "Python drivers. Benches of 2-4 models, capacities 1-4 (16 in the thorough tier), <= 6 port operations per "
+              "handler. Single-threaded schedules are enumerated exhaustively up to a cap and then sampled; "
+              "multi-threaded runs (2, 4, 16 workers) are free-running with seeded delays at hook points. Wake-up, task "
+              "and pool protocols below this layer are decided by their own specifications.")
+CHECKS.update({
+    "C02": dict(engine="bench", spec="Bench.tla (CausalDelivery with ghost vector clocks, WithinCapacity)",
+                text="TLC checks causal delivery on every schedule of chain / triangle / fan-out benches with capacities "
+                     "1..3 (senders suspended on full mailboxes); every schedule of the real single-threaded executor is "
+                     "enumerated through the pick hook with yield points at channel sends, plus random schedules and "
+                     "free multi-threaded runs, and every recorded execution (message identities, pushes, pops, "
+                     "handler starts) must be a behaviour of the specification, whose mailboxes are FIFO.",
+                design="6/C02", note=BENCH_NOTE),
+    "C03": dict(engine="bench", spec="Bench.tla (ExactlyOnce, NothingInvented, WithinCapacity)",
+                text="TLC checks that at every completed run the multiset of processed messages equals the multiset of "
+                     "accepted sends (plain/map/filter_map, models and sinks, volumes above capacity); every execution of "
+                     "the real crate under enumerated schedules and free multi-threaded runs must be a behaviour of the "
+                     "specification: each handler start must name a message that is at the head of that mailbox, a "
+                     "run may return Ok only when nothing is left, and sink contents must match.",
+                design="6/C03", note=BENCH_NOTE),
+    "C04": dict(engine="bench", spec="Bench.tla (QuiescentMeansDone, ExactlyOnce, terminal outcomes)",
+                text="TLC checks that the executor can only return Ok when no message is queued and no handler is "
+                     "half-way, and computes the terminal outcomes of every schedule (a singleton for the confluent "
+                     "benches); all single-threaded schedules and free runs on 2/4/16 workers with delays at the pool "
+                     "protocol points must be behaviours of the specification and end in that outcome; hangs are caught "
+                     "by a watchdog.",
+                design="6/C04", note=BENCH_NOTE + " The pool's park/unpark protocol is exercised through delay injection "
+                                                  "at hook points V5, not yet through its own specification."),
+    "C05": dict(engine="bench", spec="Bench.tla (task state machine: one message at a time per model)",
+                text="Every harness model carries a busy flag (set at init/handler entry, cleared at exit, under the log "
+                     "mutex); the trace specification only accepts a handler start when the model is idle and has taken "
+                     "exactly that message, so overlapping computations of one model are rejected; checked under all "
+                     "enumerated single-threaded schedules and free multi-threaded runs with delays.",
+                design="6/C05", note=BENCH_NOTE),
+    "C06": dict(engine="bench", spec="Bench.tla (Quiesce classification: Deadlock list / MessageLoss count / Ok)",
+                text="TLC explores every schedule of query loops, saturating loops, orphan mailboxes and sub-model "
+                     "deadlocks; the error returned by the real crate (kind, qualified model names, exact mailbox "
+                     "sizes, lost-message count) must be the one the specification derives from its mailbox contents at "
+                     "the stall, and runs that complete must return Ok - on all enumerated schedules and on 2/4/16 "
+                     "workers with delays at the deactivation/fold/park points.",
+                design="6/C06", note=BENCH_NOTE),
+    "C14": dict(engine="bench", spec="Bench.tla (OpStart/Push/HE/OpDone for queries: one reply per accepted replier, in "
+                                     "connection order)",
+                text="TLC explores every completion order of 0..6 repliers with filtered subsets; on the real crate the "
+                     "reply vector returned by Requestor::send (each reply encodes the replier, the mapped request and "
+                     "the connection's reply map) must equal the specification's under every enumerated schedule and "
+                     "free multi-threaded runs.",
+                design="6/C14", note=BENCH_NOTE + " Port-clone sharing (CachedRwLock) and TaskSet are not yet covered "
+                                                  "by their own specifications."),
+    "C16": dict(engine="bench", spec="Bench.tla (InitOnceFirst; qualified names in handler contexts and reports)",
+                text="TLC explores every schedule of SimInit::init on hierarchies of depth <= 3 whose init scripts send "
+                     "events and queries to models that are not initialised yet; on the real crate init must run once "
+                     "per model, before any of its handlers, messages sent earlier must be processed afterwards, and the "
+                     "name seen in Context::name() and in error reports must be the qualified one.",
+                design="6/C16", note=BENCH_NOTE),
+})
+
 PENDING = {}
 
 TITLES = {}
@@ -122,6 +179,11 @@ def main():
                                     "/verif/tools/check_seqds.py /verif/harness/src/seqds.rs",
                  serves_properties=["C17", "C20"],
                  kind_free_text="TLC behaviour enumeration + replay with value comparison + trace validation"),
+            dict(name="bench", path="/verif/specs/Bench.tla /verif/specs/MC_Bench.tla /verif/specs/Bench_Trace.tla "
+                                    "/verif/tools/check_bench.py /verif/tools/benchrun.py /verif/harness/src/bench.rs",
+                 serves_properties=["C02", "C03", "C04", "C05", "C06", "C14", "C16"],
+                 kind_free_text="TLC exhaustive schedule exploration + systematic schedule enumeration on the real "
+                                "executor (pick/yield hooks) + trace validation"),
             dict(name="simcore", path="/verif/specs/SimCore.tla /verif/specs/SimCore_Trace.tla /verif/tools/check_simcore.py "
                                       "/verif/harness/src/simcore.rs",
                  serves_properties=["C01", "C07", "C08", "C09", "C10", "C11", "C18"],
